@@ -655,6 +655,20 @@ theorem boxOK_of_genuine (F : TFunctor R) (b : Box) (hb : Genuine b) : BoxOK F b
   | cup => exact boxOK_cup F b hk hb.2.1
   | cap => exact boxOK_cap F b hk hb.2.2
 
+/-- The Boolean the driver reports (`fgenuine`) implies the hypothesis of the theorem. -/
+theorem genuine_of_genuineB (b : Box) (h : TFunctor.genuineB b = true) : Genuine b := by
+  unfold TFunctor.genuineB at h
+  refine ⟨fun hk => ?_, fun hk => ?_, fun hk => ?_⟩
+  · rw [hk] at h; simpa using h
+  · rw [hk] at h
+    simp only [Bool.and_eq_true, beq_iff_eq, List.isEmpty_iff] at h
+    match hd : b.dom, h.1 with
+    | [x, y], _ => exact ⟨x, y, rfl, h.2⟩
+  · rw [hk] at h
+    simp only [Bool.and_eq_true, beq_iff_eq, List.isEmpty_iff] at h
+    match hd : b.cod, h.1 with
+    | [x, y], _ => exact ⟨x, y, rfl, h.2⟩
+
 /-! ### a box seen as a one-box diagram -/
 
 theorem layerwise_ofBox (F : TFunctor R) (b : Box) (hb : BoxOK F b) :
